@@ -10,6 +10,7 @@ EXTRA_THEOREM_FILES.append("Props/C08_src_c.v")     # SRCF: third part (int_to_s
 EXTRA_THEOREM_FILES.append("Props/C08_src_d.v")     # SRCF: fourth part (valid_str, str_to_int, _get_match_result)
 EXTRA_THEOREM_FILES.append("Props/C08_src_e.v")     # SRCF: fifth part (EUI.__init__, _set_value)
 EXTRA_THEOREM_FILES.append("Props/C08_src_f.v")     # SRCF: sixth part (EUI.__setstate__, IAB.split_iab_mac)
+EXTRA_THEOREM_FILES.append("Props/C08_code.v")   # CODB: code-level theorems (the C08 theorems stated about the regenerated definitions)
 RULE = ("objects: 11 built-in dialects + 7 user subclasses (custom separator / word_fmt / word size) x boundary values "
         "(0, max, 2^k, 2^k-1, a single non-zero octet 01/80/ff at each position, decimal-only digit patterns, both IAB "
         "OUIs) and random values x every accessor and conversion; every index -n-1..n and word assignment at both ends "
